@@ -246,7 +246,7 @@ def selftest(module, traces, verdicts, tag, constants, rng, n=40, timeout=600):
     return res
 
 
-def validate_traces(module, traces, tag, constants='', timeout=1800, chunk=400):
+def validate_traces(module, traces, tag, constants='', timeout=1800, chunk=400, unevaluable=None):
     """Validate implementation traces against spec/<module>.tla.
 
     The trace module must define `Spec`, read `IOEnv.TRACE_FILE` (JSON array of traces) and print,
@@ -255,8 +255,8 @@ def validate_traces(module, traces, tag, constants='', timeout=1800, chunk=400):
     [step, clause] pairs.  Returns (verdicts, states, transitions).
     """
     verdicts, states, trans = [], 0, 0
-    for off in range(0, len(traces), chunk):
-        part = traces[off:off + chunk]
+
+    def judge(part):
         wd = workdir(tag + '_tr')
         try:
             tf = os.path.join(wd, 'traces.json')
@@ -269,11 +269,35 @@ def validate_traces(module, traces, tag, constants='', timeout=1800, chunk=400):
             v = r.printed[-1]
             if len(v) != len(part):
                 raise TLCError('verdict count mismatch %d != %d' % (len(v), len(part)))
-            verdicts += v
-            states += r.distinct
-            trans += r.generated
+            return v, r.distinct, r.generated
         finally:
             shutil.rmtree(wd, ignore_errors=True)
+
+    def judge_split(part):
+        """a recorded execution that the specification cannot even evaluate (values outside every modelled range, e.g. 32-bit overflow of a
+        wildly wrong weight) is a failed execution, not a machinery failure: the batch is bisected and such a trace gets the verdict
+        <<0, unevaluable>> (only when the caller names that clause; otherwise the error is raised as before)"""
+        try:
+            return judge(part)
+        except TLCError:
+            if unevaluable is None or os.environ.get('VERIF_NO_SPLIT') == '1':
+                raise
+            if len(part) == 1:
+                return [[[0, unevaluable]]], 0, 0
+            h = len(part) // 2
+            v1, s1, t1 = judge_split(part[:h])
+            v2, s2, t2 = judge_split(part[h:])
+            return v1 + v2, s1 + s2, t1 + t2
+
+    for off in range(0, len(traces), chunk):
+        v, st_, tr_ = judge_split(traces[off:off + chunk])
+        nbad = sum(1 for x in v if any(c == unevaluable for _s, c in x)) if unevaluable else 0
+        if nbad and (nbad * 2 > len(v) or len(v) < 4):
+            # (nearly) everything un-evaluable: that is the machinery (specification does not parse, TLC missing ...), not the library
+            raise TLCError('trace validation failed for %d of %d traces of a batch (%s): machinery failure' % (nbad, len(v), module))
+        verdicts += v
+        states += st_
+        trans += tr_
     if os.environ.get('VERIF_SELFTEST', '1') != '0' and traces:
         import random
         try:
